@@ -141,6 +141,19 @@ def s_conflict(world):
     return 'conflict', ('pr', pr, {})
 
 
+def s_conflict_later(world):
+    """the conflict shows up on the LAST integration branch: the earlier
+    ones are pushed by the conflict handler"""
+    other = world.layout['chain'][-1]
+    world.do('push_commit', branch=other,
+             files={'shared.txt': 'line\nline\ntheirs\nline\nline\n'},
+             user=LEAD)
+    src = 'bugfix/TEST-1-c'
+    pr = world.do('open_pr', src=src, dst=first_dest(world),
+                  files={'shared.txt': 'line\nline\nmine\nline\nline\n'})
+    return 'conflict-on-later-target', ('pr', pr, {})
+
+
 SCENARIOS = {
     'first_eval': s_first_eval, 'queue_entry': s_queue_entry,
     'queue_merge': s_queue_merge, 'second_entry': s_second_entry,
@@ -149,6 +162,7 @@ SCENARIOS = {
     'delete_queues': s_delete_queues, 'force_merge': s_force_merge,
     'create_branch': s_create_branch, 'create_stab': s_create_stab,
     'delete_branch': s_delete_branch, 'conflict': s_conflict,
+    'conflict_later': s_conflict_later,
 }
 
 
